@@ -442,6 +442,43 @@ func VF_C13_collisions() {
 	vfReach("C13_collisions")
 }
 
+func init() { vfRegister("VF_C13_cross_collisions", VF_C13_cross_collisions) }
+
+// vfASCIIn: an ASCII string of 1..max characters, character by character.
+func vfASCIIn(name string, max int) string {
+	return vfASCIIString(name, 1+vfChoice(name+".len", max))
+}
+
+// VF_C13_cross_collisions: in an accepted configuration the methods generated
+// for two services never collide with each other: G, GInContext and, for a
+// must-getter, MustG, MustGInContext of one service are all different from
+// those of the other (getters are ASCII by grammar; anything else is rejected).
+func VF_C13_cross_collisions() {
+	g1, g2 := vfASCIIn("g1", vfBound("c13.cross", 5, 8)), vfASCIIn("g2", vfBound("c13.cross2", 2, 3))
+	m1, m2 := vfBool("must1"), vfBool("must2")
+	s1, s2 := vfValidService(), vfValidService()
+	s1.Getter, s2.Getter = &g1, &g2
+	s1.MustGetter, s2.MustGetter = &m1, &m2
+	err := vfWhole(Input{Services: map[string]Service{"a": s1, "b": s2}})
+	if err != nil {
+		vfReach("C13_cross_collisions_rejected")
+		return
+	}
+	names := func(g string, must bool) []string {
+		r := []string{g, g + "InContext"}
+		if must {
+			r = append(r, "Must"+g, "Must"+g+"InContext")
+		}
+		return r
+	}
+	for _, a := range names(g1, m1) {
+		for _, b := range names(g2, m2) {
+			vfAssert(a != b, "the methods generated for two services never collide")
+		}
+	}
+	vfReach("C13_cross_collisions")
+}
+
 func init() { vfRegister("VF_C04_tag_yaml", VF_C04_tag_yaml) }
 
 // VF_C04_tag_yaml: a tag is a string (priority 0) or a mapping with a string
